@@ -260,6 +260,13 @@ func (e *env) evalUpdate(s *scenario, now time.Time, a *art, key string) (accept
 	if len(v.Failed) > 0 {
 		c.Hist("update_first_failed_clause", v.Failed[0])
 	}
+	if v.Gap != "" {
+		if ok {
+			c.Hist("statement_holds_strict_fails", v.Gap+":accepted")
+		} else {
+			c.Hist("statement_holds_strict_fails", v.Gap+":rejected")
+		}
+	}
 	if ok {
 		// what an accepted update leaves behind
 		st := e.app.IBCKeeper.ClientKeeper.GetClientStatus(after.WithBlockTime(now), s.ID)
@@ -364,7 +371,7 @@ func partPowers(e *env) {
 	}
 	fams := []family{{3, 3, 1, 3}, {4, 1, 1, 3}, {3, 2, 2, 3}}
 	if !c.Quick() {
-		fams = []family{{4, 2, 1, 3}, {3, 3, 1, 3}, {3, 3, 2, 3}, {3, 2, 1, 2}, {2, 4, 1, 3}}
+		fams = []family{{4, 2, 1, 3}, {4, 2, 2, 3}, {3, 3, 1, 3}, {3, 3, 2, 3}, {3, 2, 1, 2}, {2, 4, 1, 3}}
 	}
 	chainID := "virt-1"
 	famNames := []string{}
@@ -535,7 +542,7 @@ func partMutations(e *env) {
 			total++
 		}
 		// thorough: every ordered pair of mutations of the first base
-		if !c.Quick() && b.name == bases[0].name {
+		if !c.Quick() && (b.name == bases[0].name || b.name == bases[2].name) {
 			pairs := 0
 			for _, m1 := range muts {
 				for _, m2 := range muts {
@@ -554,7 +561,7 @@ func partMutations(e *env) {
 					break
 				}
 			}
-			c.Set("mutation_pairs_evaluated", pairs)
+			c.Add("mutation_pairs_evaluated", pairs)
 		}
 		if c.TimeUp() {
 			break
